@@ -30,7 +30,7 @@ try:
 except Exception:  # pragma: no cover
     pass
 
-assert pydrex.__file__.startswith("/repo/src"), pydrex.__file__
+assert pydrex.__file__.startswith(os.environ.get("PYDREX_VERIF_REPO", "/repo") + "/src"), pydrex.__file__
 
 _RealLSODA = _minerals.LSODA
 
